@@ -31,7 +31,7 @@ from harness.gen import a12_cache as G
 
 DRIVERS = ["drv_c19"]
 RULE = ("one case = one generated Modelica model (parameters valued/free/dependent/Integer/Boolean/String, "
-        "parameter-dependent and constant attributes, arrays with `each` and element-wise attributes, signed alias "
+        "parameter-dependent and constant attributes (coefficients 1e-15 .. 1e13 included, values compared exactly), arrays with `each` and element-wise attributes, signed alias "
         "chains, 1-3 delays with constant/parameter/expression durations, states, inputs, outputs, constants) x one "
         "simplification option set x {cache, codegen}; fresh compile vs cache-served model at 2 exact points; "
         "about a third of the cases then call again with one option key flipped (cache on disk written for the first set) "
@@ -45,6 +45,7 @@ ASSUMPTIONS = ["variable names are unique across the metadata categories (load_m
                "numerical agreement is checked at exact evaluation points (+, -, * on dyadic rationals), not symbolically"]
 
 NPTS = 2
+WIDE = 0.15     # share of the parameter expressions of the main stream with a coefficient of extreme magnitude
 REPO_MODELS = [("Aircraft.mo", "Aircraft", {}), ("Delay.mo", "Delay", {}), ("ParameterAttributes.mo", "ParameterAttributes", {}),
                ("Spring.mo", "Spring", {}), ("Alias.mo", "Alias", {"detect_aliases": True}),
                ("NegativeAlias.mo", "NegativeAlias", {"detect_aliases": True}),
@@ -367,7 +368,7 @@ def gen_case(rng, mode="cache"):
     want = ["vector-parameter"] if rng.random() < 0.15 else []
     if mode == "codegen":
         want = want + ["cancellation"]     # compiled code must keep the exact operation order (no -ffast-math)
-    gm = G.gen_model(rng, want=want)
+    gm = G.gen_model(rng, want=want, wide=WIDE)
     c = {"name": gm["name"], "text": gm["text"], "features": gm["features"], "opts": G.gen_options(rng),
          "mode": mode, "seed": rng.randrange(1000)}
     r = rng.random()
@@ -432,6 +433,15 @@ def gen_case_vecparam(rng):
             "seed": rng.randrange(1000), "stream": "vector-parameter"}
 
 
+def gen_case_wide(rng, mode="cache"):
+    """Attribute expressions with coefficients of extreme magnitude (1e-15 .. 1e13) in every case: a cache-served model
+    takes its parameter-dependent attributes from the (possibly rebuilt, affine) metadata function, the fresh compile has
+    the expression as written; the values are compared exactly, so a coefficient of 1e-13 counts like one of 3."""
+    gm = G.gen_model(rng, want=["wide-coefficient", "dependent-parameter"], wide=0.5)
+    return {"name": gm["name"], "text": gm["text"], "features": gm["features"], "opts": G.gen_options(rng, heavy=0.3), "mode": mode,
+            "seed": rng.randrange(1000), "stream": "wide-coefficient"}
+
+
 def gen_case_arraysym(rng):
     """Array attributes with symbolic elements in every case (finding C19-F3, fixed in 00f122e; also part of the main stream)."""
     gm = G.gen_model(rng, want=["array", "array-symbolic"])
@@ -472,6 +482,9 @@ def run(ctx):
     for _ in range(6 if quick else 150):
         ctx.count("stream:array-symbolic")
         check_case(ctx, gen_case_arraysym(ctx.rng), drv)
+    for i in range(14 if quick else 300):
+        ctx.count("stream:wide-coefficient")
+        check_case(ctx, gen_case_wide(ctx.rng, "codegen" if (i == 3 or i % 50 == 49) else "cache"), drv)
     n_cache, n_codegen = (400, 6) if quick else (4000, 120)
     # codegen cases are spread over the run so that a time-out keeps both kinds
     every = max(1, n_cache // max(1, n_codegen))
